@@ -1,18 +1,477 @@
 /-
   Byte level = instruction level for the arms of opcode class `mulDivOpcodes ++ jumpOpcodes` (see Lemmas/X86Enc/Arm.lean).
+
+  Layout of the proof: `jenc_wrapE` / `jenc_wrapA` are the register-mapping prefix shared by all arms of `JitEmit.arm` /
+  `JitAst.arm`; for a LITERAL opcode both `arm`s reduce to that prefix applied to the arm's body by `rfl` (the 150-way
+  `match` on the opcode evaluates definitionally), so every opcode is one application of a shape lemma
+  (`jenc_md`, `jenc_ja`, `jenc_cmpImm`, `jenc_cmpReg`, `jenc_testImm`, `jenc_testReg`) with `rfl` arguments.
 -/
 import RbpfModel.Model.JitSim
 import RbpfModel.Lemmas.X86Enc.Prim
 namespace Rbpf.JitEnc
 open Rbpf.X86 (Instr Cc decode ccOf)
 open Rbpf.JitAst (AI Tgt)
-open Rbpf.JitEmit (Em Fail)
+open Rbpf.JitEmit (Em Fail mapRegister?)
 open Rbpf.JitSim (aluOpcodes mulDivOpcodes jumpOpcodes memOpcodes)
+
+/-- the head of `JitEmit.arm`: map the two register fields, panic if either is out of range -/
+def jenc_wrapE (dst src : BitVec 8) (f : Nat → Nat → Except Fail (Em × Nat)) : Except Fail (Em × Nat) :=
+  match mapRegister? dst.toNat, mapRegister? src.toNat with
+  | none, _ => .error .panic
+  | _, none => .error .panic
+  | some d, some s => f d s
+
+/-- the head of `JitAst.arm` -/
+def jenc_wrapA (dst src : BitVec 8) (f : Nat → Nat → Except Fail (List AI × Nat)) : Except Fail (List AI × Nat) :=
+  match mapRegister? dst.toNat, mapRegister? src.toNat with
+  | none, _ => .error .panic
+  | _, none => .error .panic
+  | some d, some s => f d s
+
+/-- an arm that, on mapped registers `d s`, emits `g d s` for the instruction list `l d s` and consumes one slot -/
+theorem jenc_wrap {e e' : Em} {n : Nat} {dst src : BitVec 8} (g : Nat → Nat → Em) (l : Nat → Nat → List AI)
+    {X : Except Fail (Em × Nat)} {Y : Except Fail (List AI × Nat)}
+    (hE : X = jenc_wrapE dst src fun d s => .ok (g d s, 1))
+    (hA : Y = jenc_wrapA dst src fun d s => .ok (l d s, 1))
+    (hem : ∀ d s, d < 16 → s < 16 → Emits e (g d s) (l d s))
+    (h : X = .ok (e', n)) : ∃ ais, Y = .ok (ais, n) ∧ Emits e e' ais := by
+  subst hE hA
+  unfold jenc_wrapE at h
+  unfold jenc_wrapA
+  split at h
+  · cases h
+  · cases h
+  · rename_i d s hd hs
+    cases h
+    exact ⟨l d s, rfl, hem d s (prim_mapRegister_lt hd) (prim_mapRegister_lt hs)⟩
+
+section shapes
+variable {e' : Em} {n : Nat} {dst src : BitVec 8} {X : Except Fail (Em × Nat)} {Y : Except Fail (List AI × Nat)}
+variable (e : Em) {pc : Nat}
+
+/-- multiplication, division, remainder: both arms are `emit_muldivmod` -/
+theorem jenc_md (k : Nat) (imm : BitVec 32)
+    (hE : X = jenc_wrapE dst src fun d s => .ok (JitEmit.emitMuldivmod e pc k s d imm.toInt, 1))
+    (hA : Y = jenc_wrapA dst src fun d s => .ok (JitAst.muldivmod pc k s d imm, 1))
+    (h : X = .ok (e', n)) : ∃ ais, Y = .ok (ais, n) ∧ Emits e e' ais :=
+  jenc_wrap _ _ hE hA (fun d s hd hs => prim_emits_muldivmod e pc k s d imm hs hd) h
+
+/-- `ja` -/
+theorem jenc_ja (off : BitVec 16)
+    (hE : X = jenc_wrapE dst src fun _ _ => .ok (JitEmit.emitJmp e ((pc : Int) + off.toInt + 1), 1))
+    (hA : Y = jenc_wrapA dst src fun _ _ => .ok ([.jmp (.pc ((pc : Int) + off.toInt + 1))], 1))
+    (h : X = .ok (e', n)) : ∃ ais, Y = .ok (ais, n) ∧ Emits e e' ais :=
+  jenc_wrap _ _ hE hA (fun _ _ _ _ => prim_emits_jmp e _ _ rfl) h
+
+/-- a flag-setting instruction followed by `jcc` to the arm of `t` -/
+theorem jenc_then_jcc {e1 : Em} {x : Instr} (h1 : Emits e e1 [.i x]) (code : Nat) (cc : Cc) (hcc : ccOf code = some cc) (t : Int) :
+    Emits e (JitEmit.emitJcc e1 code t) [.i x, .jcc cc (.pc t)] :=
+  prim_emits_cons h1 (prim_emits_jcc e1 code t (.pc t) cc rfl hcc)
+
+/-- `cmp dst, imm ; jcc` (64-bit for `w = true`) -/
+theorem jenc_cmpImm (w : Bool) (code : Nat) (cc : Cc) (off : BitVec 16) (imm : BitVec 32) (hcc : ccOf code = some cc)
+    (hE : X = jenc_wrapE dst src fun d _ => .ok (JitEmit.emitJcc
+      (if w then JitEmit.emitCmpImm32 e d imm.toInt else JitEmit.emitCmp32Imm32 e d imm.toInt) code ((pc : Int) + off.toInt + 1), 1))
+    (hA : Y = jenc_wrapA dst src fun d _ => .ok ([.i (.aluRI w .cmp d imm), .jcc cc (.pc ((pc : Int) + off.toInt + 1))], 1))
+    (h : X = .ok (e', n)) : ∃ ais, Y = .ok (ais, n) ∧ Emits e e' ais := by
+  refine jenc_wrap _ _ hE hA (fun d _ hd _ => jenc_then_jcc e ?_ code cc hcc _) h
+  cases w
+  · exact prim_emits_cmp32Imm32_bv e d imm hd
+  · exact prim_emits_cmpImm32_bv e d imm hd
+
+/-- `cmp dst, src ; jcc` -/
+theorem jenc_cmpReg (w : Bool) (code : Nat) (cc : Cc) (off : BitVec 16) (hcc : ccOf code = some cc)
+    (hE : X = jenc_wrapE dst src fun d s => .ok (JitEmit.emitJcc
+      (if w then JitEmit.emitCmp e s d else JitEmit.emitCmp32 e s d) code ((pc : Int) + off.toInt + 1), 1))
+    (hA : Y = jenc_wrapA dst src fun d s => .ok ([.i (.aluRR w .cmp s d), .jcc cc (.pc ((pc : Int) + off.toInt + 1))], 1))
+    (h : X = .ok (e', n)) : ∃ ais, Y = .ok (ais, n) ∧ Emits e e' ais := by
+  refine jenc_wrap _ _ hE hA (fun d s hd hs => jenc_then_jcc e ?_ code cc hcc _) h
+  cases w
+  · exact prim_emits_cmp32 e s d hs hd
+  · exact prim_emits_cmp e s d hs hd
+
+/-- `test dst, imm ; jne` (`jset` with an immediate) -/
+theorem jenc_testImm (w : Bool) (off : BitVec 16) (imm : BitVec 32)
+    (hE : X = jenc_wrapE dst src fun d _ => .ok (JitEmit.emitJcc
+      (if w then JitEmit.emitAlu64Imm32 e 0xf7 0 d imm.toInt else JitEmit.emitAlu32Imm32 e 0xf7 0 d imm.toInt) 0x85
+      ((pc : Int) + off.toInt + 1), 1))
+    (hA : Y = jenc_wrapA dst src fun d _ => .ok ([.i (.aluRI w .test d imm), .jcc .ne (.pc ((pc : Int) + off.toInt + 1))], 1))
+    (h : X = .ok (e', n)) : ∃ ais, Y = .ok (ais, n) ∧ Emits e e' ais := by
+  refine jenc_wrap _ _ hE hA (fun d _ hd _ => jenc_then_jcc e ?_ 0x85 .ne rfl _) h
+  cases w
+  · exact prim_emits_testImm32_bv e d imm hd
+  · exact prim_emits_testImm64_bv e d imm hd
+
+/-- `test dst, src ; jne` (`jset` with a register) -/
+theorem jenc_testReg (w : Bool) (off : BitVec 16)
+    (hE : X = jenc_wrapE dst src fun d s => .ok (JitEmit.emitJcc
+      (if w then JitEmit.emitAlu64 e 0x85 s d else JitEmit.emitAlu32 e 0x85 s d) 0x85 ((pc : Int) + off.toInt + 1), 1))
+    (hA : Y = jenc_wrapA dst src fun d s => .ok ([.i (.aluRR w .test s d), .jcc .ne (.pc ((pc : Int) + off.toInt + 1))], 1))
+    (h : X = .ok (e', n)) : ∃ ais, Y = .ok (ais, n) ∧ Emits e e' ais := by
+  refine jenc_wrap _ _ hE hA (fun d s hd hs => jenc_then_jcc e ?_ 0x85 .ne rfl _) h
+  cases w
+  · exact prim_emits_alu32 e 0x85 s d .test rfl hs hd
+  · exact prim_emits_alu64 e 0x85 s d .test rfl hs hd
+
+end shapes
+
+-- ---------------------------------------------------------------------------------------------------------
+-- one lemma per opcode (the opcode is a literal, so both `arm`s evaluate to their `wrap` form by `rfl`)
+
+theorem jenc_op_24 (e e' : Em) (haddr : Nat → Option Nat) (pc n : Nat) (dst src : BitVec 8) (off : BitVec 16) (imm : BitVec 32) (nx : Option Insn)
+    (h : JitEmit.arm e haddr pc ⟨0x24, dst, src, off, imm⟩ nx = .ok (e', n)) :
+    ∃ ais, JitAst.arm haddr pc ⟨0x24, dst, src, off, imm⟩ nx = .ok (ais, n) ∧ Emits e e' ais :=
+  jenc_md e 0x24 imm rfl rfl h
+
+theorem jenc_op_2c (e e' : Em) (haddr : Nat → Option Nat) (pc n : Nat) (dst src : BitVec 8) (off : BitVec 16) (imm : BitVec 32) (nx : Option Insn)
+    (h : JitEmit.arm e haddr pc ⟨0x2c, dst, src, off, imm⟩ nx = .ok (e', n)) :
+    ∃ ais, JitAst.arm haddr pc ⟨0x2c, dst, src, off, imm⟩ nx = .ok (ais, n) ∧ Emits e e' ais :=
+  jenc_md e 0x2c imm rfl rfl h
+
+theorem jenc_op_34 (e e' : Em) (haddr : Nat → Option Nat) (pc n : Nat) (dst src : BitVec 8) (off : BitVec 16) (imm : BitVec 32) (nx : Option Insn)
+    (h : JitEmit.arm e haddr pc ⟨0x34, dst, src, off, imm⟩ nx = .ok (e', n)) :
+    ∃ ais, JitAst.arm haddr pc ⟨0x34, dst, src, off, imm⟩ nx = .ok (ais, n) ∧ Emits e e' ais :=
+  jenc_md e 0x34 imm rfl rfl h
+
+theorem jenc_op_3c (e e' : Em) (haddr : Nat → Option Nat) (pc n : Nat) (dst src : BitVec 8) (off : BitVec 16) (imm : BitVec 32) (nx : Option Insn)
+    (h : JitEmit.arm e haddr pc ⟨0x3c, dst, src, off, imm⟩ nx = .ok (e', n)) :
+    ∃ ais, JitAst.arm haddr pc ⟨0x3c, dst, src, off, imm⟩ nx = .ok (ais, n) ∧ Emits e e' ais :=
+  jenc_md e 0x3c imm rfl rfl h
+
+theorem jenc_op_94 (e e' : Em) (haddr : Nat → Option Nat) (pc n : Nat) (dst src : BitVec 8) (off : BitVec 16) (imm : BitVec 32) (nx : Option Insn)
+    (h : JitEmit.arm e haddr pc ⟨0x94, dst, src, off, imm⟩ nx = .ok (e', n)) :
+    ∃ ais, JitAst.arm haddr pc ⟨0x94, dst, src, off, imm⟩ nx = .ok (ais, n) ∧ Emits e e' ais :=
+  jenc_md e 0x94 imm rfl rfl h
+
+theorem jenc_op_9c (e e' : Em) (haddr : Nat → Option Nat) (pc n : Nat) (dst src : BitVec 8) (off : BitVec 16) (imm : BitVec 32) (nx : Option Insn)
+    (h : JitEmit.arm e haddr pc ⟨0x9c, dst, src, off, imm⟩ nx = .ok (e', n)) :
+    ∃ ais, JitAst.arm haddr pc ⟨0x9c, dst, src, off, imm⟩ nx = .ok (ais, n) ∧ Emits e e' ais :=
+  jenc_md e 0x9c imm rfl rfl h
+
+theorem jenc_op_27 (e e' : Em) (haddr : Nat → Option Nat) (pc n : Nat) (dst src : BitVec 8) (off : BitVec 16) (imm : BitVec 32) (nx : Option Insn)
+    (h : JitEmit.arm e haddr pc ⟨0x27, dst, src, off, imm⟩ nx = .ok (e', n)) :
+    ∃ ais, JitAst.arm haddr pc ⟨0x27, dst, src, off, imm⟩ nx = .ok (ais, n) ∧ Emits e e' ais :=
+  jenc_md e 0x27 imm rfl rfl h
+
+theorem jenc_op_2f (e e' : Em) (haddr : Nat → Option Nat) (pc n : Nat) (dst src : BitVec 8) (off : BitVec 16) (imm : BitVec 32) (nx : Option Insn)
+    (h : JitEmit.arm e haddr pc ⟨0x2f, dst, src, off, imm⟩ nx = .ok (e', n)) :
+    ∃ ais, JitAst.arm haddr pc ⟨0x2f, dst, src, off, imm⟩ nx = .ok (ais, n) ∧ Emits e e' ais :=
+  jenc_md e 0x2f imm rfl rfl h
+
+theorem jenc_op_37 (e e' : Em) (haddr : Nat → Option Nat) (pc n : Nat) (dst src : BitVec 8) (off : BitVec 16) (imm : BitVec 32) (nx : Option Insn)
+    (h : JitEmit.arm e haddr pc ⟨0x37, dst, src, off, imm⟩ nx = .ok (e', n)) :
+    ∃ ais, JitAst.arm haddr pc ⟨0x37, dst, src, off, imm⟩ nx = .ok (ais, n) ∧ Emits e e' ais :=
+  jenc_md e 0x37 imm rfl rfl h
+
+theorem jenc_op_3f (e e' : Em) (haddr : Nat → Option Nat) (pc n : Nat) (dst src : BitVec 8) (off : BitVec 16) (imm : BitVec 32) (nx : Option Insn)
+    (h : JitEmit.arm e haddr pc ⟨0x3f, dst, src, off, imm⟩ nx = .ok (e', n)) :
+    ∃ ais, JitAst.arm haddr pc ⟨0x3f, dst, src, off, imm⟩ nx = .ok (ais, n) ∧ Emits e e' ais :=
+  jenc_md e 0x3f imm rfl rfl h
+
+theorem jenc_op_97 (e e' : Em) (haddr : Nat → Option Nat) (pc n : Nat) (dst src : BitVec 8) (off : BitVec 16) (imm : BitVec 32) (nx : Option Insn)
+    (h : JitEmit.arm e haddr pc ⟨0x97, dst, src, off, imm⟩ nx = .ok (e', n)) :
+    ∃ ais, JitAst.arm haddr pc ⟨0x97, dst, src, off, imm⟩ nx = .ok (ais, n) ∧ Emits e e' ais :=
+  jenc_md e 0x97 imm rfl rfl h
+
+theorem jenc_op_9f (e e' : Em) (haddr : Nat → Option Nat) (pc n : Nat) (dst src : BitVec 8) (off : BitVec 16) (imm : BitVec 32) (nx : Option Insn)
+    (h : JitEmit.arm e haddr pc ⟨0x9f, dst, src, off, imm⟩ nx = .ok (e', n)) :
+    ∃ ais, JitAst.arm haddr pc ⟨0x9f, dst, src, off, imm⟩ nx = .ok (ais, n) ∧ Emits e e' ais :=
+  jenc_md e 0x9f imm rfl rfl h
+
+theorem jenc_op_05 (e e' : Em) (haddr : Nat → Option Nat) (pc n : Nat) (dst src : BitVec 8) (off : BitVec 16) (imm : BitVec 32) (nx : Option Insn)
+    (h : JitEmit.arm e haddr pc ⟨0x05, dst, src, off, imm⟩ nx = .ok (e', n)) :
+    ∃ ais, JitAst.arm haddr pc ⟨0x05, dst, src, off, imm⟩ nx = .ok (ais, n) ∧ Emits e e' ais :=
+  jenc_ja e off rfl rfl h
+
+theorem jenc_op_15 (e e' : Em) (haddr : Nat → Option Nat) (pc n : Nat) (dst src : BitVec 8) (off : BitVec 16) (imm : BitVec 32) (nx : Option Insn)
+    (h : JitEmit.arm e haddr pc ⟨0x15, dst, src, off, imm⟩ nx = .ok (e', n)) :
+    ∃ ais, JitAst.arm haddr pc ⟨0x15, dst, src, off, imm⟩ nx = .ok (ais, n) ∧ Emits e e' ais :=
+  jenc_cmpImm e true 0x84 .e off imm rfl rfl rfl h
+
+theorem jenc_op_1d (e e' : Em) (haddr : Nat → Option Nat) (pc n : Nat) (dst src : BitVec 8) (off : BitVec 16) (imm : BitVec 32) (nx : Option Insn)
+    (h : JitEmit.arm e haddr pc ⟨0x1d, dst, src, off, imm⟩ nx = .ok (e', n)) :
+    ∃ ais, JitAst.arm haddr pc ⟨0x1d, dst, src, off, imm⟩ nx = .ok (ais, n) ∧ Emits e e' ais :=
+  jenc_cmpReg e true 0x84 .e off rfl rfl rfl h
+
+theorem jenc_op_25 (e e' : Em) (haddr : Nat → Option Nat) (pc n : Nat) (dst src : BitVec 8) (off : BitVec 16) (imm : BitVec 32) (nx : Option Insn)
+    (h : JitEmit.arm e haddr pc ⟨0x25, dst, src, off, imm⟩ nx = .ok (e', n)) :
+    ∃ ais, JitAst.arm haddr pc ⟨0x25, dst, src, off, imm⟩ nx = .ok (ais, n) ∧ Emits e e' ais :=
+  jenc_cmpImm e true 0x87 .a off imm rfl rfl rfl h
+
+theorem jenc_op_2d (e e' : Em) (haddr : Nat → Option Nat) (pc n : Nat) (dst src : BitVec 8) (off : BitVec 16) (imm : BitVec 32) (nx : Option Insn)
+    (h : JitEmit.arm e haddr pc ⟨0x2d, dst, src, off, imm⟩ nx = .ok (e', n)) :
+    ∃ ais, JitAst.arm haddr pc ⟨0x2d, dst, src, off, imm⟩ nx = .ok (ais, n) ∧ Emits e e' ais :=
+  jenc_cmpReg e true 0x87 .a off rfl rfl rfl h
+
+theorem jenc_op_35 (e e' : Em) (haddr : Nat → Option Nat) (pc n : Nat) (dst src : BitVec 8) (off : BitVec 16) (imm : BitVec 32) (nx : Option Insn)
+    (h : JitEmit.arm e haddr pc ⟨0x35, dst, src, off, imm⟩ nx = .ok (e', n)) :
+    ∃ ais, JitAst.arm haddr pc ⟨0x35, dst, src, off, imm⟩ nx = .ok (ais, n) ∧ Emits e e' ais :=
+  jenc_cmpImm e true 0x83 .ae off imm rfl rfl rfl h
+
+theorem jenc_op_3d (e e' : Em) (haddr : Nat → Option Nat) (pc n : Nat) (dst src : BitVec 8) (off : BitVec 16) (imm : BitVec 32) (nx : Option Insn)
+    (h : JitEmit.arm e haddr pc ⟨0x3d, dst, src, off, imm⟩ nx = .ok (e', n)) :
+    ∃ ais, JitAst.arm haddr pc ⟨0x3d, dst, src, off, imm⟩ nx = .ok (ais, n) ∧ Emits e e' ais :=
+  jenc_cmpReg e true 0x83 .ae off rfl rfl rfl h
+
+theorem jenc_op_a5 (e e' : Em) (haddr : Nat → Option Nat) (pc n : Nat) (dst src : BitVec 8) (off : BitVec 16) (imm : BitVec 32) (nx : Option Insn)
+    (h : JitEmit.arm e haddr pc ⟨0xa5, dst, src, off, imm⟩ nx = .ok (e', n)) :
+    ∃ ais, JitAst.arm haddr pc ⟨0xa5, dst, src, off, imm⟩ nx = .ok (ais, n) ∧ Emits e e' ais :=
+  jenc_cmpImm e true 0x82 .b off imm rfl rfl rfl h
+
+theorem jenc_op_ad (e e' : Em) (haddr : Nat → Option Nat) (pc n : Nat) (dst src : BitVec 8) (off : BitVec 16) (imm : BitVec 32) (nx : Option Insn)
+    (h : JitEmit.arm e haddr pc ⟨0xad, dst, src, off, imm⟩ nx = .ok (e', n)) :
+    ∃ ais, JitAst.arm haddr pc ⟨0xad, dst, src, off, imm⟩ nx = .ok (ais, n) ∧ Emits e e' ais :=
+  jenc_cmpReg e true 0x82 .b off rfl rfl rfl h
+
+theorem jenc_op_b5 (e e' : Em) (haddr : Nat → Option Nat) (pc n : Nat) (dst src : BitVec 8) (off : BitVec 16) (imm : BitVec 32) (nx : Option Insn)
+    (h : JitEmit.arm e haddr pc ⟨0xb5, dst, src, off, imm⟩ nx = .ok (e', n)) :
+    ∃ ais, JitAst.arm haddr pc ⟨0xb5, dst, src, off, imm⟩ nx = .ok (ais, n) ∧ Emits e e' ais :=
+  jenc_cmpImm e true 0x86 .be off imm rfl rfl rfl h
+
+theorem jenc_op_bd (e e' : Em) (haddr : Nat → Option Nat) (pc n : Nat) (dst src : BitVec 8) (off : BitVec 16) (imm : BitVec 32) (nx : Option Insn)
+    (h : JitEmit.arm e haddr pc ⟨0xbd, dst, src, off, imm⟩ nx = .ok (e', n)) :
+    ∃ ais, JitAst.arm haddr pc ⟨0xbd, dst, src, off, imm⟩ nx = .ok (ais, n) ∧ Emits e e' ais :=
+  jenc_cmpReg e true 0x86 .be off rfl rfl rfl h
+
+theorem jenc_op_45 (e e' : Em) (haddr : Nat → Option Nat) (pc n : Nat) (dst src : BitVec 8) (off : BitVec 16) (imm : BitVec 32) (nx : Option Insn)
+    (h : JitEmit.arm e haddr pc ⟨0x45, dst, src, off, imm⟩ nx = .ok (e', n)) :
+    ∃ ais, JitAst.arm haddr pc ⟨0x45, dst, src, off, imm⟩ nx = .ok (ais, n) ∧ Emits e e' ais :=
+  jenc_testImm e true off imm rfl rfl h
+
+theorem jenc_op_4d (e e' : Em) (haddr : Nat → Option Nat) (pc n : Nat) (dst src : BitVec 8) (off : BitVec 16) (imm : BitVec 32) (nx : Option Insn)
+    (h : JitEmit.arm e haddr pc ⟨0x4d, dst, src, off, imm⟩ nx = .ok (e', n)) :
+    ∃ ais, JitAst.arm haddr pc ⟨0x4d, dst, src, off, imm⟩ nx = .ok (ais, n) ∧ Emits e e' ais :=
+  jenc_testReg e true off rfl rfl h
+
+theorem jenc_op_55 (e e' : Em) (haddr : Nat → Option Nat) (pc n : Nat) (dst src : BitVec 8) (off : BitVec 16) (imm : BitVec 32) (nx : Option Insn)
+    (h : JitEmit.arm e haddr pc ⟨0x55, dst, src, off, imm⟩ nx = .ok (e', n)) :
+    ∃ ais, JitAst.arm haddr pc ⟨0x55, dst, src, off, imm⟩ nx = .ok (ais, n) ∧ Emits e e' ais :=
+  jenc_cmpImm e true 0x85 .ne off imm rfl rfl rfl h
+
+theorem jenc_op_5d (e e' : Em) (haddr : Nat → Option Nat) (pc n : Nat) (dst src : BitVec 8) (off : BitVec 16) (imm : BitVec 32) (nx : Option Insn)
+    (h : JitEmit.arm e haddr pc ⟨0x5d, dst, src, off, imm⟩ nx = .ok (e', n)) :
+    ∃ ais, JitAst.arm haddr pc ⟨0x5d, dst, src, off, imm⟩ nx = .ok (ais, n) ∧ Emits e e' ais :=
+  jenc_cmpReg e true 0x85 .ne off rfl rfl rfl h
+
+theorem jenc_op_65 (e e' : Em) (haddr : Nat → Option Nat) (pc n : Nat) (dst src : BitVec 8) (off : BitVec 16) (imm : BitVec 32) (nx : Option Insn)
+    (h : JitEmit.arm e haddr pc ⟨0x65, dst, src, off, imm⟩ nx = .ok (e', n)) :
+    ∃ ais, JitAst.arm haddr pc ⟨0x65, dst, src, off, imm⟩ nx = .ok (ais, n) ∧ Emits e e' ais :=
+  jenc_cmpImm e true 0x8f .g off imm rfl rfl rfl h
+
+theorem jenc_op_6d (e e' : Em) (haddr : Nat → Option Nat) (pc n : Nat) (dst src : BitVec 8) (off : BitVec 16) (imm : BitVec 32) (nx : Option Insn)
+    (h : JitEmit.arm e haddr pc ⟨0x6d, dst, src, off, imm⟩ nx = .ok (e', n)) :
+    ∃ ais, JitAst.arm haddr pc ⟨0x6d, dst, src, off, imm⟩ nx = .ok (ais, n) ∧ Emits e e' ais :=
+  jenc_cmpReg e true 0x8f .g off rfl rfl rfl h
+
+theorem jenc_op_75 (e e' : Em) (haddr : Nat → Option Nat) (pc n : Nat) (dst src : BitVec 8) (off : BitVec 16) (imm : BitVec 32) (nx : Option Insn)
+    (h : JitEmit.arm e haddr pc ⟨0x75, dst, src, off, imm⟩ nx = .ok (e', n)) :
+    ∃ ais, JitAst.arm haddr pc ⟨0x75, dst, src, off, imm⟩ nx = .ok (ais, n) ∧ Emits e e' ais :=
+  jenc_cmpImm e true 0x8d .ge off imm rfl rfl rfl h
+
+theorem jenc_op_7d (e e' : Em) (haddr : Nat → Option Nat) (pc n : Nat) (dst src : BitVec 8) (off : BitVec 16) (imm : BitVec 32) (nx : Option Insn)
+    (h : JitEmit.arm e haddr pc ⟨0x7d, dst, src, off, imm⟩ nx = .ok (e', n)) :
+    ∃ ais, JitAst.arm haddr pc ⟨0x7d, dst, src, off, imm⟩ nx = .ok (ais, n) ∧ Emits e e' ais :=
+  jenc_cmpReg e true 0x8d .ge off rfl rfl rfl h
+
+theorem jenc_op_c5 (e e' : Em) (haddr : Nat → Option Nat) (pc n : Nat) (dst src : BitVec 8) (off : BitVec 16) (imm : BitVec 32) (nx : Option Insn)
+    (h : JitEmit.arm e haddr pc ⟨0xc5, dst, src, off, imm⟩ nx = .ok (e', n)) :
+    ∃ ais, JitAst.arm haddr pc ⟨0xc5, dst, src, off, imm⟩ nx = .ok (ais, n) ∧ Emits e e' ais :=
+  jenc_cmpImm e true 0x8c .l off imm rfl rfl rfl h
+
+theorem jenc_op_cd (e e' : Em) (haddr : Nat → Option Nat) (pc n : Nat) (dst src : BitVec 8) (off : BitVec 16) (imm : BitVec 32) (nx : Option Insn)
+    (h : JitEmit.arm e haddr pc ⟨0xcd, dst, src, off, imm⟩ nx = .ok (e', n)) :
+    ∃ ais, JitAst.arm haddr pc ⟨0xcd, dst, src, off, imm⟩ nx = .ok (ais, n) ∧ Emits e e' ais :=
+  jenc_cmpReg e true 0x8c .l off rfl rfl rfl h
+
+theorem jenc_op_d5 (e e' : Em) (haddr : Nat → Option Nat) (pc n : Nat) (dst src : BitVec 8) (off : BitVec 16) (imm : BitVec 32) (nx : Option Insn)
+    (h : JitEmit.arm e haddr pc ⟨0xd5, dst, src, off, imm⟩ nx = .ok (e', n)) :
+    ∃ ais, JitAst.arm haddr pc ⟨0xd5, dst, src, off, imm⟩ nx = .ok (ais, n) ∧ Emits e e' ais :=
+  jenc_cmpImm e true 0x8e .le off imm rfl rfl rfl h
+
+theorem jenc_op_dd (e e' : Em) (haddr : Nat → Option Nat) (pc n : Nat) (dst src : BitVec 8) (off : BitVec 16) (imm : BitVec 32) (nx : Option Insn)
+    (h : JitEmit.arm e haddr pc ⟨0xdd, dst, src, off, imm⟩ nx = .ok (e', n)) :
+    ∃ ais, JitAst.arm haddr pc ⟨0xdd, dst, src, off, imm⟩ nx = .ok (ais, n) ∧ Emits e e' ais :=
+  jenc_cmpReg e true 0x8e .le off rfl rfl rfl h
+
+theorem jenc_op_16 (e e' : Em) (haddr : Nat → Option Nat) (pc n : Nat) (dst src : BitVec 8) (off : BitVec 16) (imm : BitVec 32) (nx : Option Insn)
+    (h : JitEmit.arm e haddr pc ⟨0x16, dst, src, off, imm⟩ nx = .ok (e', n)) :
+    ∃ ais, JitAst.arm haddr pc ⟨0x16, dst, src, off, imm⟩ nx = .ok (ais, n) ∧ Emits e e' ais :=
+  jenc_cmpImm e false 0x84 .e off imm rfl rfl rfl h
+
+theorem jenc_op_1e (e e' : Em) (haddr : Nat → Option Nat) (pc n : Nat) (dst src : BitVec 8) (off : BitVec 16) (imm : BitVec 32) (nx : Option Insn)
+    (h : JitEmit.arm e haddr pc ⟨0x1e, dst, src, off, imm⟩ nx = .ok (e', n)) :
+    ∃ ais, JitAst.arm haddr pc ⟨0x1e, dst, src, off, imm⟩ nx = .ok (ais, n) ∧ Emits e e' ais :=
+  jenc_cmpReg e false 0x84 .e off rfl rfl rfl h
+
+theorem jenc_op_26 (e e' : Em) (haddr : Nat → Option Nat) (pc n : Nat) (dst src : BitVec 8) (off : BitVec 16) (imm : BitVec 32) (nx : Option Insn)
+    (h : JitEmit.arm e haddr pc ⟨0x26, dst, src, off, imm⟩ nx = .ok (e', n)) :
+    ∃ ais, JitAst.arm haddr pc ⟨0x26, dst, src, off, imm⟩ nx = .ok (ais, n) ∧ Emits e e' ais :=
+  jenc_cmpImm e false 0x87 .a off imm rfl rfl rfl h
+
+theorem jenc_op_2e (e e' : Em) (haddr : Nat → Option Nat) (pc n : Nat) (dst src : BitVec 8) (off : BitVec 16) (imm : BitVec 32) (nx : Option Insn)
+    (h : JitEmit.arm e haddr pc ⟨0x2e, dst, src, off, imm⟩ nx = .ok (e', n)) :
+    ∃ ais, JitAst.arm haddr pc ⟨0x2e, dst, src, off, imm⟩ nx = .ok (ais, n) ∧ Emits e e' ais :=
+  jenc_cmpReg e false 0x87 .a off rfl rfl rfl h
+
+theorem jenc_op_36 (e e' : Em) (haddr : Nat → Option Nat) (pc n : Nat) (dst src : BitVec 8) (off : BitVec 16) (imm : BitVec 32) (nx : Option Insn)
+    (h : JitEmit.arm e haddr pc ⟨0x36, dst, src, off, imm⟩ nx = .ok (e', n)) :
+    ∃ ais, JitAst.arm haddr pc ⟨0x36, dst, src, off, imm⟩ nx = .ok (ais, n) ∧ Emits e e' ais :=
+  jenc_cmpImm e false 0x83 .ae off imm rfl rfl rfl h
+
+theorem jenc_op_3e (e e' : Em) (haddr : Nat → Option Nat) (pc n : Nat) (dst src : BitVec 8) (off : BitVec 16) (imm : BitVec 32) (nx : Option Insn)
+    (h : JitEmit.arm e haddr pc ⟨0x3e, dst, src, off, imm⟩ nx = .ok (e', n)) :
+    ∃ ais, JitAst.arm haddr pc ⟨0x3e, dst, src, off, imm⟩ nx = .ok (ais, n) ∧ Emits e e' ais :=
+  jenc_cmpReg e false 0x83 .ae off rfl rfl rfl h
+
+theorem jenc_op_a6 (e e' : Em) (haddr : Nat → Option Nat) (pc n : Nat) (dst src : BitVec 8) (off : BitVec 16) (imm : BitVec 32) (nx : Option Insn)
+    (h : JitEmit.arm e haddr pc ⟨0xa6, dst, src, off, imm⟩ nx = .ok (e', n)) :
+    ∃ ais, JitAst.arm haddr pc ⟨0xa6, dst, src, off, imm⟩ nx = .ok (ais, n) ∧ Emits e e' ais :=
+  jenc_cmpImm e false 0x82 .b off imm rfl rfl rfl h
+
+theorem jenc_op_ae (e e' : Em) (haddr : Nat → Option Nat) (pc n : Nat) (dst src : BitVec 8) (off : BitVec 16) (imm : BitVec 32) (nx : Option Insn)
+    (h : JitEmit.arm e haddr pc ⟨0xae, dst, src, off, imm⟩ nx = .ok (e', n)) :
+    ∃ ais, JitAst.arm haddr pc ⟨0xae, dst, src, off, imm⟩ nx = .ok (ais, n) ∧ Emits e e' ais :=
+  jenc_cmpReg e false 0x82 .b off rfl rfl rfl h
+
+theorem jenc_op_b6 (e e' : Em) (haddr : Nat → Option Nat) (pc n : Nat) (dst src : BitVec 8) (off : BitVec 16) (imm : BitVec 32) (nx : Option Insn)
+    (h : JitEmit.arm e haddr pc ⟨0xb6, dst, src, off, imm⟩ nx = .ok (e', n)) :
+    ∃ ais, JitAst.arm haddr pc ⟨0xb6, dst, src, off, imm⟩ nx = .ok (ais, n) ∧ Emits e e' ais :=
+  jenc_cmpImm e false 0x86 .be off imm rfl rfl rfl h
+
+theorem jenc_op_be (e e' : Em) (haddr : Nat → Option Nat) (pc n : Nat) (dst src : BitVec 8) (off : BitVec 16) (imm : BitVec 32) (nx : Option Insn)
+    (h : JitEmit.arm e haddr pc ⟨0xbe, dst, src, off, imm⟩ nx = .ok (e', n)) :
+    ∃ ais, JitAst.arm haddr pc ⟨0xbe, dst, src, off, imm⟩ nx = .ok (ais, n) ∧ Emits e e' ais :=
+  jenc_cmpReg e false 0x86 .be off rfl rfl rfl h
+
+theorem jenc_op_46 (e e' : Em) (haddr : Nat → Option Nat) (pc n : Nat) (dst src : BitVec 8) (off : BitVec 16) (imm : BitVec 32) (nx : Option Insn)
+    (h : JitEmit.arm e haddr pc ⟨0x46, dst, src, off, imm⟩ nx = .ok (e', n)) :
+    ∃ ais, JitAst.arm haddr pc ⟨0x46, dst, src, off, imm⟩ nx = .ok (ais, n) ∧ Emits e e' ais :=
+  jenc_testImm e false off imm rfl rfl h
+
+theorem jenc_op_4e (e e' : Em) (haddr : Nat → Option Nat) (pc n : Nat) (dst src : BitVec 8) (off : BitVec 16) (imm : BitVec 32) (nx : Option Insn)
+    (h : JitEmit.arm e haddr pc ⟨0x4e, dst, src, off, imm⟩ nx = .ok (e', n)) :
+    ∃ ais, JitAst.arm haddr pc ⟨0x4e, dst, src, off, imm⟩ nx = .ok (ais, n) ∧ Emits e e' ais :=
+  jenc_testReg e false off rfl rfl h
+
+theorem jenc_op_56 (e e' : Em) (haddr : Nat → Option Nat) (pc n : Nat) (dst src : BitVec 8) (off : BitVec 16) (imm : BitVec 32) (nx : Option Insn)
+    (h : JitEmit.arm e haddr pc ⟨0x56, dst, src, off, imm⟩ nx = .ok (e', n)) :
+    ∃ ais, JitAst.arm haddr pc ⟨0x56, dst, src, off, imm⟩ nx = .ok (ais, n) ∧ Emits e e' ais :=
+  jenc_cmpImm e false 0x85 .ne off imm rfl rfl rfl h
+
+theorem jenc_op_5e (e e' : Em) (haddr : Nat → Option Nat) (pc n : Nat) (dst src : BitVec 8) (off : BitVec 16) (imm : BitVec 32) (nx : Option Insn)
+    (h : JitEmit.arm e haddr pc ⟨0x5e, dst, src, off, imm⟩ nx = .ok (e', n)) :
+    ∃ ais, JitAst.arm haddr pc ⟨0x5e, dst, src, off, imm⟩ nx = .ok (ais, n) ∧ Emits e e' ais :=
+  jenc_cmpReg e false 0x85 .ne off rfl rfl rfl h
+
+theorem jenc_op_66 (e e' : Em) (haddr : Nat → Option Nat) (pc n : Nat) (dst src : BitVec 8) (off : BitVec 16) (imm : BitVec 32) (nx : Option Insn)
+    (h : JitEmit.arm e haddr pc ⟨0x66, dst, src, off, imm⟩ nx = .ok (e', n)) :
+    ∃ ais, JitAst.arm haddr pc ⟨0x66, dst, src, off, imm⟩ nx = .ok (ais, n) ∧ Emits e e' ais :=
+  jenc_cmpImm e false 0x8f .g off imm rfl rfl rfl h
+
+theorem jenc_op_6e (e e' : Em) (haddr : Nat → Option Nat) (pc n : Nat) (dst src : BitVec 8) (off : BitVec 16) (imm : BitVec 32) (nx : Option Insn)
+    (h : JitEmit.arm e haddr pc ⟨0x6e, dst, src, off, imm⟩ nx = .ok (e', n)) :
+    ∃ ais, JitAst.arm haddr pc ⟨0x6e, dst, src, off, imm⟩ nx = .ok (ais, n) ∧ Emits e e' ais :=
+  jenc_cmpReg e false 0x8f .g off rfl rfl rfl h
+
+theorem jenc_op_76 (e e' : Em) (haddr : Nat → Option Nat) (pc n : Nat) (dst src : BitVec 8) (off : BitVec 16) (imm : BitVec 32) (nx : Option Insn)
+    (h : JitEmit.arm e haddr pc ⟨0x76, dst, src, off, imm⟩ nx = .ok (e', n)) :
+    ∃ ais, JitAst.arm haddr pc ⟨0x76, dst, src, off, imm⟩ nx = .ok (ais, n) ∧ Emits e e' ais :=
+  jenc_cmpImm e false 0x8d .ge off imm rfl rfl rfl h
+
+theorem jenc_op_7e (e e' : Em) (haddr : Nat → Option Nat) (pc n : Nat) (dst src : BitVec 8) (off : BitVec 16) (imm : BitVec 32) (nx : Option Insn)
+    (h : JitEmit.arm e haddr pc ⟨0x7e, dst, src, off, imm⟩ nx = .ok (e', n)) :
+    ∃ ais, JitAst.arm haddr pc ⟨0x7e, dst, src, off, imm⟩ nx = .ok (ais, n) ∧ Emits e e' ais :=
+  jenc_cmpReg e false 0x8d .ge off rfl rfl rfl h
+
+theorem jenc_op_c6 (e e' : Em) (haddr : Nat → Option Nat) (pc n : Nat) (dst src : BitVec 8) (off : BitVec 16) (imm : BitVec 32) (nx : Option Insn)
+    (h : JitEmit.arm e haddr pc ⟨0xc6, dst, src, off, imm⟩ nx = .ok (e', n)) :
+    ∃ ais, JitAst.arm haddr pc ⟨0xc6, dst, src, off, imm⟩ nx = .ok (ais, n) ∧ Emits e e' ais :=
+  jenc_cmpImm e false 0x8c .l off imm rfl rfl rfl h
+
+theorem jenc_op_ce (e e' : Em) (haddr : Nat → Option Nat) (pc n : Nat) (dst src : BitVec 8) (off : BitVec 16) (imm : BitVec 32) (nx : Option Insn)
+    (h : JitEmit.arm e haddr pc ⟨0xce, dst, src, off, imm⟩ nx = .ok (e', n)) :
+    ∃ ais, JitAst.arm haddr pc ⟨0xce, dst, src, off, imm⟩ nx = .ok (ais, n) ∧ Emits e e' ais :=
+  jenc_cmpReg e false 0x8c .l off rfl rfl rfl h
+
+theorem jenc_op_d6 (e e' : Em) (haddr : Nat → Option Nat) (pc n : Nat) (dst src : BitVec 8) (off : BitVec 16) (imm : BitVec 32) (nx : Option Insn)
+    (h : JitEmit.arm e haddr pc ⟨0xd6, dst, src, off, imm⟩ nx = .ok (e', n)) :
+    ∃ ais, JitAst.arm haddr pc ⟨0xd6, dst, src, off, imm⟩ nx = .ok (ais, n) ∧ Emits e e' ais :=
+  jenc_cmpImm e false 0x8e .le off imm rfl rfl rfl h
+
+theorem jenc_op_de (e e' : Em) (haddr : Nat → Option Nat) (pc n : Nat) (dst src : BitVec 8) (off : BitVec 16) (imm : BitVec 32) (nx : Option Insn)
+    (h : JitEmit.arm e haddr pc ⟨0xde, dst, src, off, imm⟩ nx = .ok (e', n)) :
+    ∃ ais, JitAst.arm haddr pc ⟨0xde, dst, src, off, imm⟩ nx = .ok (ais, n) ∧ Emits e e' ais :=
+  jenc_cmpReg e false 0x8e .le off rfl rfl rfl h
+
+-- ---------------------------------------------------------------------------------------------------------
+-- assembly
+
+theorem jenc_opc_eq {opc : BitVec 8} {k : Nat} (h : opc.toNat = k) (hk : k < 256 := by decide) : opc = BitVec.ofNat 8 k :=
+  BitVec.eq_of_toNat_eq (by rw [h, BitVec.toNat_ofNat]; exact (Nat.mod_eq_of_lt hk).symm)
 
 theorem arm_enc_muldivjump (e e' : Em) (haddr : Nat → Option Nat) (pc n : Nat) (i : Insn) (nx : Option Insn)
     (hc : i.opc.toNat ∈ mulDivOpcodes ++ jumpOpcodes)
     (h : JitEmit.arm e haddr pc i nx = .ok (e', n)) :
     ∃ ais, JitAst.arm haddr pc i nx = .ok (ais, n) ∧ Emits e e' ais := by
-  sorry
+  obtain ⟨opc, dst, src, off, imm⟩ := i
+  simp only [mulDivOpcodes, jumpOpcodes, List.cons_append, List.nil_append, List.mem_cons, List.not_mem_nil, or_false] at hc
+  rcases hc with hc | hc | hc | hc | hc | hc | hc | hc | hc | hc | hc | hc | hc | hc | hc | hc | hc | hc | hc | hc | hc | hc | hc | hc | hc | hc | hc | hc | hc | hc | hc | hc | hc | hc | hc | hc | hc | hc | hc | hc | hc | hc | hc | hc | hc | hc | hc | hc | hc | hc | hc | hc | hc | hc | hc | hc | hc
+  · cases jenc_opc_eq hc; exact jenc_op_24 e e' haddr pc n dst src off imm nx h
+  · cases jenc_opc_eq hc; exact jenc_op_2c e e' haddr pc n dst src off imm nx h
+  · cases jenc_opc_eq hc; exact jenc_op_34 e e' haddr pc n dst src off imm nx h
+  · cases jenc_opc_eq hc; exact jenc_op_3c e e' haddr pc n dst src off imm nx h
+  · cases jenc_opc_eq hc; exact jenc_op_94 e e' haddr pc n dst src off imm nx h
+  · cases jenc_opc_eq hc; exact jenc_op_9c e e' haddr pc n dst src off imm nx h
+  · cases jenc_opc_eq hc; exact jenc_op_27 e e' haddr pc n dst src off imm nx h
+  · cases jenc_opc_eq hc; exact jenc_op_2f e e' haddr pc n dst src off imm nx h
+  · cases jenc_opc_eq hc; exact jenc_op_37 e e' haddr pc n dst src off imm nx h
+  · cases jenc_opc_eq hc; exact jenc_op_3f e e' haddr pc n dst src off imm nx h
+  · cases jenc_opc_eq hc; exact jenc_op_97 e e' haddr pc n dst src off imm nx h
+  · cases jenc_opc_eq hc; exact jenc_op_9f e e' haddr pc n dst src off imm nx h
+  · cases jenc_opc_eq hc; exact jenc_op_05 e e' haddr pc n dst src off imm nx h
+  · cases jenc_opc_eq hc; exact jenc_op_15 e e' haddr pc n dst src off imm nx h
+  · cases jenc_opc_eq hc; exact jenc_op_1d e e' haddr pc n dst src off imm nx h
+  · cases jenc_opc_eq hc; exact jenc_op_25 e e' haddr pc n dst src off imm nx h
+  · cases jenc_opc_eq hc; exact jenc_op_2d e e' haddr pc n dst src off imm nx h
+  · cases jenc_opc_eq hc; exact jenc_op_35 e e' haddr pc n dst src off imm nx h
+  · cases jenc_opc_eq hc; exact jenc_op_3d e e' haddr pc n dst src off imm nx h
+  · cases jenc_opc_eq hc; exact jenc_op_a5 e e' haddr pc n dst src off imm nx h
+  · cases jenc_opc_eq hc; exact jenc_op_ad e e' haddr pc n dst src off imm nx h
+  · cases jenc_opc_eq hc; exact jenc_op_b5 e e' haddr pc n dst src off imm nx h
+  · cases jenc_opc_eq hc; exact jenc_op_bd e e' haddr pc n dst src off imm nx h
+  · cases jenc_opc_eq hc; exact jenc_op_45 e e' haddr pc n dst src off imm nx h
+  · cases jenc_opc_eq hc; exact jenc_op_4d e e' haddr pc n dst src off imm nx h
+  · cases jenc_opc_eq hc; exact jenc_op_55 e e' haddr pc n dst src off imm nx h
+  · cases jenc_opc_eq hc; exact jenc_op_5d e e' haddr pc n dst src off imm nx h
+  · cases jenc_opc_eq hc; exact jenc_op_65 e e' haddr pc n dst src off imm nx h
+  · cases jenc_opc_eq hc; exact jenc_op_6d e e' haddr pc n dst src off imm nx h
+  · cases jenc_opc_eq hc; exact jenc_op_75 e e' haddr pc n dst src off imm nx h
+  · cases jenc_opc_eq hc; exact jenc_op_7d e e' haddr pc n dst src off imm nx h
+  · cases jenc_opc_eq hc; exact jenc_op_c5 e e' haddr pc n dst src off imm nx h
+  · cases jenc_opc_eq hc; exact jenc_op_cd e e' haddr pc n dst src off imm nx h
+  · cases jenc_opc_eq hc; exact jenc_op_d5 e e' haddr pc n dst src off imm nx h
+  · cases jenc_opc_eq hc; exact jenc_op_dd e e' haddr pc n dst src off imm nx h
+  · cases jenc_opc_eq hc; exact jenc_op_16 e e' haddr pc n dst src off imm nx h
+  · cases jenc_opc_eq hc; exact jenc_op_1e e e' haddr pc n dst src off imm nx h
+  · cases jenc_opc_eq hc; exact jenc_op_26 e e' haddr pc n dst src off imm nx h
+  · cases jenc_opc_eq hc; exact jenc_op_2e e e' haddr pc n dst src off imm nx h
+  · cases jenc_opc_eq hc; exact jenc_op_36 e e' haddr pc n dst src off imm nx h
+  · cases jenc_opc_eq hc; exact jenc_op_3e e e' haddr pc n dst src off imm nx h
+  · cases jenc_opc_eq hc; exact jenc_op_a6 e e' haddr pc n dst src off imm nx h
+  · cases jenc_opc_eq hc; exact jenc_op_ae e e' haddr pc n dst src off imm nx h
+  · cases jenc_opc_eq hc; exact jenc_op_b6 e e' haddr pc n dst src off imm nx h
+  · cases jenc_opc_eq hc; exact jenc_op_be e e' haddr pc n dst src off imm nx h
+  · cases jenc_opc_eq hc; exact jenc_op_46 e e' haddr pc n dst src off imm nx h
+  · cases jenc_opc_eq hc; exact jenc_op_4e e e' haddr pc n dst src off imm nx h
+  · cases jenc_opc_eq hc; exact jenc_op_56 e e' haddr pc n dst src off imm nx h
+  · cases jenc_opc_eq hc; exact jenc_op_5e e e' haddr pc n dst src off imm nx h
+  · cases jenc_opc_eq hc; exact jenc_op_66 e e' haddr pc n dst src off imm nx h
+  · cases jenc_opc_eq hc; exact jenc_op_6e e e' haddr pc n dst src off imm nx h
+  · cases jenc_opc_eq hc; exact jenc_op_76 e e' haddr pc n dst src off imm nx h
+  · cases jenc_opc_eq hc; exact jenc_op_7e e e' haddr pc n dst src off imm nx h
+  · cases jenc_opc_eq hc; exact jenc_op_c6 e e' haddr pc n dst src off imm nx h
+  · cases jenc_opc_eq hc; exact jenc_op_ce e e' haddr pc n dst src off imm nx h
+  · cases jenc_opc_eq hc; exact jenc_op_d6 e e' haddr pc n dst src off imm nx h
+  · cases jenc_opc_eq hc; exact jenc_op_de e e' haddr pc n dst src off imm nx h
 
 end Rbpf.JitEnc
